@@ -3,7 +3,6 @@
 package slip
 
 import (
-	"fmt"
 	"strconv"
 	"strings"
 	"sync"
@@ -184,7 +183,7 @@ func UnpackName(str string) (pkg *Package, name string, private bool) {
 	if i := strings.IndexByte(str, ':'); 0 < i {
 		pkg = FindPackage(str[:i])
 		if pkg == nil {
-			panic(fmt.Sprintf("package %s is not defined.", printer.caseName(str[:i])))
+			PackagePanic(NewScope(), 0, nil, "package %s is not defined.", printer.caseName(str[:i]))
 		}
 		i++
 		if i < len(str) && str[i] == ':' {
